@@ -59,9 +59,9 @@ def run(run):
     run.assumptions = ['the inverse emitters (native -> 0.0.39 layout, native -> .sCAD) are trusted glue, self-checked on the shipped fixture',
                        '.sCAD does not carry attacker names']
     selfcheck(run)
-    run.gen_replay('Gen_Model', 'Gen_Model.cfg', A, {'langs': langs},
-                   env={'VERIF_LANG': 'LTiny', 'VERIF_DEPTH': 3, 'VERIF_MAXREJ': 0}, timeout=1500,
-                   name='every accepted ModelSM behaviour of depth 3 on LTiny')
+    run.gen_replay('Gen_Model', 'Gen_Model_states.cfg', A, {'langs': langs},
+                   env={'VERIF_LANG': 'LTiny', 'VERIF_DEPTH': 3 if quick else 4, 'VERIF_MAXREJ': 0}, timeout=1500,
+                   name='every distinct ModelSM state reachable by <= 3-4 accepted calls on LTiny')
     n = 1500 if quick else 25000
     for lang in ('LDup', 'LDef', 'LSame'):
         run.gen_replay('Gen_Model', 'Gen_Model_sim.cfg', A, {'langs': langs},
